@@ -104,6 +104,9 @@ func (s *Solver) Close() {
 }
 
 func (s *Solver) restart() {
+	if os.Getenv("SYMGO_DEBUG") != "" {
+		fmt.Fprintf(os.Stderr, "solver restart: dead=%v lastErr=%s\n", s.dead, s.LastErr)
+	}
 	s.Close()
 	s.start()
 }
@@ -214,6 +217,9 @@ func (s *Solver) Check(asserts []*Term, want []*Term) (Result, map[*Term]*big.In
 	for _, a := range all {
 		s.define(a)
 	}
+	for _, w := range want {
+		s.define(w)
+	}
 	s.send("(push 1)")
 	for _, a := range all {
 		if !a.IsTrue() {
@@ -245,7 +251,6 @@ func (s *Solver) Check(asserts []*Term, want []*Term) (Result, map[*Term]*big.In
 	if res == Sat && len(want) > 0 {
 		model = map[*Term]*big.Int{}
 		for _, w := range want {
-			s.define(w)
 			s.send("(get-value (" + ref(w) + "))")
 			v := s.readSexp()
 			if bv := parseValue(v); bv != nil {
